@@ -50,6 +50,10 @@ for o in objs:
     a, b = {k: v for k, v in vars(o).items() if k != '_numbytes'}, {k: v for k, v in vars(o2).items() if k != '_numbytes'}
     if {k: (vars(v) if hasattr(v, '__dict__') else v) for k, v in a.items()} != {k: (vars(v) if hasattr(v, '__dict__') else v) for k, v in b.items()}:
         bad.append((type(o).__name__, a, b))
+e = Environment(temperature=150.0); e.wavelength = 600            # an int assigned through the setter stays an int
+e2 = Environment.from_dict(e.to_dict())
+if e2._wavelength is None or float(e2._wavelength) != 600.0 or e2.temperature != 150.0:
+    bad.append(('Environment (int wavelength set through the setter)', vars(e), vars(e2)))
 VIOLATED, DETAIL = bool(bad), 'round trip differs: ' + repr(bad)[:400]
 """, "expect": "from_dict(to_dict(x)) has the same fields as x"}
 
@@ -133,6 +137,10 @@ def props(u: Unit):
             wv = z3.Real("wavelength")
             st.assume(wv > 0)
             out["_wavelength"] = VFloat(wv)
+        elif sub == "integer":                       # the setter keeps an int as given (Processor.set / a sweep over the wavelength)
+            wi = z3.Int("wavelength_int")
+            st.assume(wi > 0)
+            out["_wavelength"] = VInt(wi)
         elif sub == "multi":
             on, offv, res = z3.Real("cut_on"), z3.Real("cut_off"), z3.Int("resolution")
             st.assume(z3.And(on > 0, on <= offv, res > 0))
@@ -144,7 +152,7 @@ def props(u: Unit):
     td, fd = u.fn(f"{DET}environment.py::Environment.to_dict"), u.fn(f"{DET}environment.py::Environment.from_dict")
     u.fn(f"{DET}environment.py::WavelengthHandling.to_dict")
     u.fn(f"{DET}environment.py::WavelengthHandling.from_dict")
-    for sub in ("numeric", "multi", "none", "empty"):
+    for sub in ("numeric", "integer", "multi", "none", "empty"):
         def setup(ex, sub=sub):
             obj = ex.st.alloc(HObj(ci, env(ex, sub)))
             ex.orig = obj
